@@ -480,6 +480,11 @@ def build():
                 t = new(kind, m)
                 t.group = "B"
                 t.items.append(mk_item(t, form, nk, "", vk, 0))
+                if n % 2:
+                    # followed by another field: the NON-terminal arm (`.., $($rest)*`) of valueset!/fieldset!, not the terminal one
+                    t.items.append(mk_item(t, "kv", "path", "", "u8", 1))
+                elif n % 4 == 2:
+                    t.trailing = True
                 n += 1
 
     # ---- C: sigils x every form x sigil-capable types
@@ -488,9 +493,16 @@ def build():
     for fi, (form, nk, s) in enumerate(sforms):
         for ki, vk in enumerate(SIGIL_KINDS):
             kind, m = [("event", EVENT_MACROS[n % 6]), ("span", SPAN_MACROS[n % 6])][(n // 6) % 2]
-            t = new(kind, m)
-            t.group = "C"
-            t.items.append(mk_item(t, form, nk, s, vk, 0))
+            # each (form, sigil, type) in terminal position and in non-terminal position (followed by a field / a message)
+            for follow in (0, 1):
+                t = new(kind, m)
+                t.group = "C"
+                t.items.append(mk_item(t, form, nk, s, vk, 0))
+                if follow:
+                    if kind == "event" and (fi + ki) % 3 == 0 and first_ok(t, t.items[0]):
+                        t.fmt = mk_fmt(t, rng, 1, style=fi + ki)
+                    else:
+                        t.items.append(mk_item(t, ["kv", "sh"][(fi + ki) % 2], "path", ["", "?"][ki % 2], "i16", 1))
             n += 1
 
     # ---- D: order / once: multi-field invocations mixing everything
